@@ -93,25 +93,25 @@ PROPS = {
         "level_text": "Lean theorems about the input-queue model (a byte read consumes exactly one byte, fails only on hang-up, waiting "
                       "loses nothing) and an executable model of the whole decoder and editor that is diffed against the real "
                       "Editor::readline on a pseudo-terminal for arbitrary byte streams; the no-panic / no-wedge / no-stall oracle runs "
-                      "on the implementation's own observations. Editor level (helpers that do not panic, indent size fits u8): "
-                      "C17_execute_safe — from a state satisfying EdWF (cursor of the line and of the saved line on a character "
-                      "boundary, kill-ring bounds invariant RingOK) execute neither panics nor breaks EdWF for EVERY command except "
-                      "Undo, YankPop and ReplaceChar (moves, kills, replace, yank, inserts, overwrite, indent/dedent, case and "
-                      "transpose commands, history recall over any back end, anchored history search, accept family, ...); no command "
-                      "makes the line non-growable (keeps_grow_execute). Whole read: C17_editor_no_panic_partial — circular and list "
-                      "completion, incremental search, the dispatch loop, quoted insert, suspend and the main loop (induction on the "
-                      "fuel; fuel exhaustion is the outcome fuel, not panic), the initial text and the final cursor move never end with "
-                      "the panic outcome, GIVEN the named open obligations C17_Open: (1) next_cmd does not panic — discharged for "
-                      "emacs mode (C17_next_safe_emacs: numeric arguments, custom single-key and key-sequence bindings with re-do, "
-                      "C-x sequences, character search, paste; binding table without vi's R command), open in vi mode (sign of the "
-                      "numeric argument through the digit loops; the redo of R); (2) Undo, YankPop, ReplaceChar are safe (Undo needs the "
-                      "C05 log invariant carried through every command and sub-loop; YankPop the cross-step fact that the cursor stands "
-                      "right after the yanked text; ReplaceChar a stable segmenter and the bound on counts). C17_editor_no_panic_emacs "
-                      "is the emacs-mode corollary with only (2) left. The full statement C17_editor_no_panic_statement is kept as a "
-                      "def: as written it is not provable — the completer contract must put start on a character boundary "
-                      "(C17_completer_start_inside_char_panics), Cmd::redo of vi R panics after an insertion of more than 65535 bytes "
-                      "(finding D-redo-len), and an application-bound YankPop in vi mode underflows after p/P. Signals and real "
-                      "timing are exercised, not proved.",
+                      "on the implementation's own observations. Editor level (helpers that do not panic, indent size fits u8, "
+                      "stable segmenter, completer start on a character boundary at or before the cursor): C17_execute_safe — from "
+                      "EdWF (both cursors on character boundaries, kill-ring bounds invariant) execute neither panics nor breaks EdWF "
+                      "for every command except Undo, YankPop, ReplaceChar; ReplaceChar with a count that fits u16 is proved separately "
+                      "(C17_replaceChar_safe: the deleted text has at most n clusters); no command but Undo touches canGrow, none "
+                      "touches the input state (keeps_grow_execute, keeps_inp_execute). C17_next_cmd — next_cmd in BOTH modes: from a "
+                      "pending numeric argument that is not negative in vi mode it returns in such a state (the unreachable!() of "
+                      "vi_num_args and of Cmd::redo are unreachable) and its ONLY panic is known finding D43 "
+                      "(RepeatCount::try_from(last_insert.len()).unwrap() in the re-do of vi R), in which case the state it exits "
+                      "with has a last insertion longer than 65535 bytes. Whole read: C17_editor_no_panic_partial — if readline ends "
+                      "with the panic outcome then its final state is such a D43 state; covers next_cmd, every command, circular and "
+                      "list completion, incremental search, the dispatch loop, quoted insert, suspend, the main loop (induction on "
+                      "the fuel; fuel exhaustion is the outcome fuel), the initial text and the final cursor move; GIVEN the open "
+                      "obligations C17_Open: Undo safe (conditional step proved: C17_undo_safe_of_log, under the C05 log invariant, "
+                      "which is re-established; carrying it through every command and the abort paths of the sub-loops is open), "
+                      "YankPop safe (conditional step proved: C17_yankPop_safe_of_popOK; the cross-step fact is open, and false in vi "
+                      "mode after p/P), ReplaceChar with a count above 65535 (does not exist in the code: counts are u16). The full "
+                      "statement C17_editor_no_panic_statement is kept as a def: as written it is not provable (completer start off a "
+                      "boundary: C17_completer_start_inside_char_panics; D43). Signals and real timing are exercised, not proved.",
         "level_note": "Trusted: Lean kernel; pty harness (quiescence detection via /proc) and diff; utf8parse as standard UTF-8 validation; "
                       "kernel tty layer. Partial claim: see unproved statements in evidence.",
         "assumptions": ["keyseq_timeout = None (default)", "keys are delivered one key press at a time or as one type-ahead write"],
@@ -470,10 +470,16 @@ PROPS["C02"] = {
             "the pty harness cuts the output where the Event::Any handler runs (marker written from inside the handler)",
             "validators' messages, list completion, incremental-search prompts, the external printer, tabs and control characters in the "
             "text are outside this check (not in the property's quantifier, or other properties)"],
-        "unproved": ["C02_lbFaithful_statement: the line-buffer operations are faithful (LBFaithful: a motion leaves the text alone and answers false only "
-                     "if the cursor did not move; an edit / paste / undo that answers 'nothing changed' changed neither text nor cursor) - "
-                     "statements about Rl/LineBuffer.lean and Rl/Undo.lean alone; everything above them (every command of execute, completion, "
-                     "incremental search, key maps, loops) is proved"],
+        "unproved": ["C02_lbFaithful_statement (refuted: C02_lbFaithful_counterexample). 19 of its 21 obligations are proved for every segmenter "
+                     "and Unicode data (C02_lbFaithful_partial: the eleven motions, kill for every Movement, transpose_chars, edit_word, "
+                     "transpose_words, indent, yank, delete, Changeset::undo); the two about a paste that LineBuffer::yank refuses (YankFaithful) "
+                     "are false on the current code: yank_pop removes the previous paste before yank refuses the new text (F-C02-yank-pop-refused, "
+                     "C02_yankPop_counterexample; true when the text is not empty and fits: C02_yankPop_faithful_of_fits), and the step back of "
+                     "edit_yank(Anchor::After) after a refused paste is not the inverse of the step forward when the cursor was inside a cluster "
+                     "(F-C02-yank-after-refused, C02_yankAfter_counterexample; true when the paste cannot be refused or for a stable segmenter "
+                     "with the cursor on a cluster boundary: C02_yankAfter_faithful_of_fits / _of_stable). C02_editor_log_coherent' / "
+                     "C02_editor_shows' take only YankFaithful as hypothesis - which is refuted (not_yankFaithful), so they say nothing until the "
+                     "two defects are repaired"],
         "level_text": "Lean theorems, for every lawful segmenter, width table and terminal width >= 2, over prompts/lines/hints made of "
                       "line breaks and printable clusters of width 0/1/2: the grapheme loop of calculate_position simulates the cursor "
                       "of a VT100-style terminal (deferred wrap, early wrap of wide characters, zero-width joins); positions computed "
@@ -500,8 +506,10 @@ PROPS["C02"] = {
                       "at its logging site and no replay step panics. C02_editor_log_coherent / C02_editor_shows conclude, for logs whose "
                       "texts are of the quantified kind and cursors on char boundaries (LogFine), that the model's log is coherent and that "
                       "at every callback the emulated terminal shows the prompt on display (the own one, or inside an incremental search the "
-                      "search prompt) + line + cursor - GIVEN LBFaithful (C02_lbFaithful_statement, not proved: line-buffer operations that "
-                      "report no change changed nothing). Every command of execute (pres_execute), listing and circular completion and - since "
+                      "search prompt) + line + cursor - GIVEN LBFaithful (line-buffer operations that report no change changed nothing): "
+                      "19 of its 21 obligations are proved (Rl/Lemmas/LBFaithful.lean, C02_lbFaithful_partial), the two about a refused paste "
+                      "(yank_pop, paste after the cursor) are FALSE on the current code (two findings), so the primed corollaries still carry the "
+                      "refuted hypothesis YankFaithful. Every command of execute (pres_execute), listing and circular completion and - since "
                       "the repair of D42 - incremental search (est_searchLoop) are lifted. "
                       "The differential check covers the real Editor::readline "
                       "on a pty at widths 2..40 and 80, its output interpreted by the Lean terminal emulator at every Event::Any "
@@ -707,7 +715,7 @@ PROPS["C01"] = {
                      "the README tables and the byte-encoding table are transcribed by hand into Rl/Spec/Doc.lean",
                      "the oracle stops judging (never guesses) where it cannot follow the key grouping: byte strings outside the documented encodings, completion and vi-mode search sub-loops, input ending inside a group"],
     "unproved": ["C01_self_insert_once_statement: REFUTED as written (it quantifies over helpers whose hinter panics: C01_self_insert_once_counterexample); the theorem C01_self_insert_once holds for every helper whose hinter does not panic"],
-    "level_text": "Lean theorems about the editor model, for every state, pending count and direction: every argument-free entry of the README tables — emacs mode, vi command mode, vi insert mode, each with the all-modes table — is mapped by the model's keymap (emacs / viCommand / viInsert) to the Cmd denoting the documented action resolved with the GNU count/direction conventions, the line untouched (C01_binding_table_emacs, _emacs_common, _vi_command, _vi_insert); for every operator d/c/y and every entry of the motion table viCmdMotion builds the documented movement, the count before the operator multiplied by the count before the motion, f/t/F/T + char remembered, the doubled operator = whole line (C01_vi_operator_motion, _counts, _char_search, _doubled); a custom-bound key yields exactly the bound command in all three keymaps, a bound two-key sequence its command and a non-completing pair none (C01_custom_binding_*, C01_custom_seq_binding, _fallback); the count handed to a command after M-[-]d1..dk is the signed decimal value, first four significant digits (C01_numeric_argument, C01_arg_value_*); a printable character is inserted exactly once at the cursor with any helper whose hinter does not panic (C01_self_insert_once; the unrestricted statement is refuted); no Move command changes the text (C01_motion_pure); C-c / C-d on the empty line / Enter on an accepted text end the read as documented at the step level, at the level of one main-loop iteration, from the decoded key in emacs mode and in the vi modes, and the value of readline is the text of the submitting state (C01_outcome_step, C01_outcome, C01_outcome_emacs_keys, C01_outcome_vi_keys, C01_outcome_readline). The editor model is diffed against the real Editor::readline on a pty, and the documented-meaning oracle (README tables as data, declarative C04 targets) runs on the implementation's callbacks for every generated script. Not proved: that execute of the denoted Cmd is the declarative Act.apply (covered by C04's theorems per movement and by the oracle).",
+    "level_text": "Lean theorems about the editor model, for every state, pending count and direction: every argument-free entry of the README tables — emacs mode, vi command mode, vi insert mode, each with the all-modes table — is mapped by the model's keymap (emacs / viCommand / viInsert) to the Cmd denoting the documented action resolved with the GNU count/direction conventions, the line untouched (C01_binding_table_emacs, _emacs_common, _vi_command, _vi_insert); for every operator d/c/y and every entry of the motion table viCmdMotion builds the documented movement, the count before the operator multiplied by the count before the motion, f/t/F/T + char remembered, the doubled operator = whole line (C01_vi_operator_motion, _counts, _char_search, _doubled); a custom-bound key yields exactly the bound command in all three keymaps, a bound two-key sequence its command and a non-completing pair none (C01_custom_binding_*, C01_custom_seq_binding, _fallback); the count handed to a command after M-[-]d1..dk is the signed decimal value, first four significant digits (C01_numeric_argument, C01_arg_value_*); a printable character is inserted exactly once at the cursor with any helper whose hinter does not panic (C01_self_insert_once; the unrestricted statement is refuted); no Move command changes the text (C01_motion_pure); C-c / C-d on the empty line / Enter on an accepted text end the read as documented at the step level, at the level of one main-loop iteration, from the decoded key in emacs mode and in the vi modes, and the value of readline is the text of the submitting state (C01_outcome_step, C01_outcome, C01_outcome_emacs_keys, C01_outcome_vi_keys, C01_outcome_readline). The editor model is diffed against the real Editor::readline on a pty, and the documented-meaning oracle (README tables as data, declarative C04 targets) runs on the implementation's callbacks for every generated script. Executing the denoted Cmd has the documented effect (C01_execute_refines_move / _kill / _change / _yank / _insert and the summary C01_execute_refines over the resolved actions): from a state with a well-formed growable line, a kill ring within bounds, a hinter that does not panic, a stable segmenter with the line break a cluster of its own, execute returns with status proceed and the line (text and cursor) is the one Act.apply — the oracle's declarative semantics — prescribes; C01_key_to_effect_emacs / _vi_command / _vi_insert chain the table theorems with it: from the decoded key of a README table to the effect on (text, cursor). Not covered by these theorems (oracle and C04 only): `^` as a motion or range and the BeforeEnd word targets (known findings), case changes (M-u M-l M-c), transpose-chars, vi r; and the cursor claim of a line-wise (dj, dk) or char-search kill that finds nothing to kill (KillCaveat).",
     "level_note": "Trusted: Lean kernel; pty harness; hand transcription of the README tables and byte encodings; the oracle stops judging where it cannot follow the key grouping. Reading decisions: vi C-d on a non-empty line, counts of 0, a minus typed after digits, `^` on a blank line, n-th character search with fewer than n occurrences, `a` with a count are not judged.",
     "assumptions": ["keyseq_timeout = None (default)"],
 }
